@@ -200,6 +200,10 @@ func runC04(l *core.Ledger) {
 	}
 	// H5
 	l.With(map[string]string{"C05-M5": "C04-H5"}, func() { c05M5(l, r) })
+	// a released handler's late reply must still find its router: nobody removes unanswered routers
+	if rm := buildRouterModel(l, r, "C04-H5"); rm != nil {
+		c05M8(l, r, rm, "C04-H5")
+	}
 	// the id is echoed from the handler's own request envelope: one fresh Message per
 	// handler start, also for a handler that released early and replies later
 	l.With(map[string]string{"C03-F5": "C04-H5"}, func() { c03F5(l, sl) })
